@@ -76,9 +76,9 @@ def rewrite_runs(prop, tier, model, bres, chk, n_quick, n_thorough, stream='rewr
     (new unique name, another origin reference), the storage unit label (sequence number, set identifier), the file
     header (sequence number), the payload of a no-format record, and (data passed as a dict) the arrays handed to
     the write — and write the same DLISFile again: -> Runs of the *second* file against the changed specification,
-    for the property's oracles.  Objects with a same-named sibling in their set are left alone (copy numbers after a
-    rename are a known C14 finding), channels too (their names key the data); frames carry no index type (derived
-    index values persisting into the next write are a known C13 finding)."""
+    for the property's oracles; the second write may also take another row window (index attributes are derived per
+    write).  Objects with a same-named sibling in their set are left alone (copy numbers after a rename are a known
+    C14 finding), channels too (their names key the data)."""
     import pickle
     R = rng(prop, stream)
     n = n_quick if tier == 'quick' else n_thorough
@@ -86,7 +86,7 @@ def rewrite_runs(prop, tier, model, bres, chk, n_quick, n_thorough, stream='rewr
     runs = []
     try:
         for i in range(n):
-            spec = filegen.gen_spec(R, n_lf=R.choice([1, 1, 2]), small=(i % 2 == 0), with_index=False, kinds=kinds)
+            spec = filegen.gen_spec(R, n_lf=R.choice([1, 1, 2]), small=(i % 2 == 0), with_index=R.choice([False, None]), kinds=kinds)
             dk = R.choice(['inline', 'dict'])
             spec['write'].update({'data_kind': dk, 'from_idx': 0, 'to_idx': None, 'input_chunk_size': None,
                                   'output_chunk_size': 2**20})
@@ -149,7 +149,7 @@ def rewrite_runs(prop, tier, model, bres, chk, n_quick, n_thorough, stream='rewr
                     o = spec['lfs'][li]['objects'][oi]
                     key = next(k for k, v in b.data.items() if v is arr)
                     if R.random() < 0.7:
-                        newdata = filegen.gen_data(R, o['dtype'], o['width'], o['data'].shape[0], None)
+                        newdata = filegen.gen_data(R, o['dtype'], o['width'], o['data'].shape[0], o.get('index_like'))
                         if o.get('cast_dtype'):
                             newdata = (np.array([R.randrange(0, 100) for _ in range(newdata.size)]).reshape(newdata.shape)).astype(o['dtype'])
                         mutated['lfs'][li]['objects'][oi]['data'] = newdata
@@ -165,7 +165,7 @@ def rewrite_runs(prop, tier, model, bres, chk, n_quick, n_thorough, stream='rewr
                 for (li, oi, arr) in b.arrays:
                     if R.random() < 0.6:
                         o = spec['lfs'][li]['objects'][oi]
-                        newdata = filegen.gen_data(R, o['dtype'], o['width'], o['data'].shape[0], None)
+                        newdata = filegen.gen_data(R, o['dtype'], o['width'], o['data'].shape[0], o.get('index_like'))
                         if o.get('cast_dtype'):
                             newdata = (np.array([R.randrange(0, 100) for _ in range(newdata.size)]).reshape(newdata.shape)).astype(o['dtype'])
                         mutated['lfs'][li]['objects'][oi]['data'] = newdata
@@ -173,6 +173,18 @@ def rewrite_runs(prop, tier, model, bres, chk, n_quick, n_thorough, stream='rewr
                         muts.append(f'second write: data={{...}} overrides the inline data of channel #{oi} of logical file {li}')
                 if d2:
                     kw2['data'] = d2
+            min_rows = min(o['data'].shape[0] for lf in mutated['lfs'] for o in lf['objects'] if o['kind'] == 'channel')
+            uniform_only = all(o.get('index_like') in (None, 'uniform') for lf in mutated['lfs'] for o in lf['objects']
+                               if o['kind'] == 'channel')
+            if min_rows >= 3 and uniform_only and R.random() < 0.4:
+                lo = R.randrange(0, min_rows - 1)
+                hi = R.choice([None, R.randrange(lo + 2, min_rows + 1) if lo + 2 <= min_rows else None])
+                if lo or hi is not None:
+                    kw2['from_idx'] = lo
+                    mutated['write'] = dict(mutated['write'], from_idx=lo, to_idx=hi)
+                    if hi is not None:
+                        kw2['to_idx'] = hi
+                    muts.append(f'second write: rows [{lo}, {hi})')
             if not muts:
                 continue
             p2 = f'{tmp}/w2.dlis'
